@@ -71,6 +71,42 @@ CHECKS.update({
                        'reported as inconclusive, never as violations.'),
 })
 
+CHECKS.update({
+    'C02': dict(
+        engine='blockvalidity',
+        technique='TLA+ spec BlockValidity.tla (abstract block/commit malformation space; ValidateBlock, ValidateBasic, VerifyCommit '
+                  'transcribed from the code; a declarative definition of a valid block) exhaustively model-checked with TLC; every '
+                  'block of the explored space concretised into a real types.Block with real signatures on a real chain state and '
+                  'pushed through the real validation code (model-based testing), a sample proposed by a Byzantine proposer to '
+                  'running pbft.ConsensusState nodes, and real committed chains checked height by height by an independent oracle',
+        level=('model_checking',
+               'TLC proves, over all blocks with <=2 (3) simultaneous malformations and every combination of 11 commit-slot classes on '
+               '3-4 validators with unequal powers, that the transcribed code logic accepts exactly the blocks the property-level '
+               'definition allows (CodeEqualsDecl) and that acceptance implies right links/commitments and >2/3 power of distinct, '
+               'correctly labelled and signed, same-height, single-round precommits for exactly the previous block. The real '
+               'ValidateBlock / ValidateBasic / VerifyCommit return the predicted verdict on two concretisations of every block; '
+               'honest nodes refuse sampled Byzantine proposals; every height of real chains re-verifies (links, DataHash, '
+               'LastCommitHash, ValidatorsHash, SeenCommit(h), BlockCommit(h-1)).', 'DESIGN.md §4 C02'),
+        note='Trusted: TLC, the concretisation in harness/cmd/blockvalidity/build.go, ed25519, hash collision freedom. Bounds: 3-4 '
+             'validators, constant validator set, single-part blocks, one class per commit slot. Block time, proposer identity and '
+             'Commit.BlockID are not part of the property (the code does not check them). Tendermint.tla commit invariants are bound under C01.'),
+    'C08': dict(
+        engine='peerinput',
+        technique='TLA+ spec PeerInput.tla (an instance of Tendermint.tla with one honest validator): the complete state graph (one edge per '
+                  'receiver situation x message class) is replayed on the real ConsensusReactor.Receive -> peerMsgQueue -> handleMsg path of a '
+                  'real pbft.ConsensusState; plus bounded byte mutations, non-block proposals, poisoned-PeerState gossip runs and the '
+                  'blockchain/mempool/PEX reactors',
+        level=('model_checking',
+               'Exhaustive over the finite product 10 receiver situations x every consensus message type x finite field classes (single '
+               'deviations in quick, pairs in thorough). The spec decides Totality, InvalidLeavesStateUnchanged, AcceptOnlyValid, '
+               'AcceptFollowsTendermint; every pair is concretised with real keys and go-wire and replayed on the real code; a panic on an '
+               'un-recovered goroutine, a fatal allocation, a consensus-state change for a non-accepted message, or a node that no longer '
+               'commits under honest traffic is a VIOLATION.', 'DESIGN.md §4 C08'),
+        note='Partial with respect to "whatever bytes": structured inputs (field classes) are exhaustive within the stated scope; raw byte '
+             'strings are covered only as bounded mutations of model-chosen encodings, the other reactors by a 51-class table. Sizes beyond '
+             '2^40, more than 4 validators and deeper rounds are outside the scope.'),
+})
+
 NOT_YET = 'not yet built: the specification for this property is planned in DESIGN.md §4 but no check is registered yet'
 NOT_APPLICABLE = {
     'C18': 'codec round-trip/robustness/injectivity are statements about pure functions over byte strings; there is no '
